@@ -187,7 +187,7 @@ def RPair.set (p : RPair) (v : Nat) (x : RArr) : RPair := if v = 0 then { p with
 def isArrayOp : Op → Bool
   | .anew _ | .anewcap _ _ | .acopy _ | .aassign _ | .areserve _ _ | .aresize _ _ _ | .aappend _ _ | .aappenda _
   | .aappendn _ _ | .aremovei _ _ | .aremove _ _ | .aremoveFront _ | .aremoveBack _ | .aclear _ | .aswap _
-  | .afind _ _ | .aget _ _ | .afront _ | .aback _ => true
+  | .afind _ _ | .aget _ _ | .afront _ | .aback _ | .aeq _ _ => true
   | _ => false
 
 /-- one Array operation of the machine at cell level (`none` = precondition violated or fault);
@@ -215,6 +215,7 @@ def rstep (p : RPair) (op : Op) : Option RPair :=
   | .aget v i => un v (fun r => if i < r.n then some r else none)
   | .afront v => un v (fun r => if 0 < r.n then some r else none)
   | .aback v => un v (fun r => if 0 < r.n then some r else none)
+  | .aeq v w => if v < 2 ∧ w < 2 then some p else none
   | _ => some p
 
 def rrun (p : RPair) : List Op → RPair
